@@ -1,38 +1,131 @@
-#[allow(unused_imports, unused_qualifications, non_snake_case, unused)]
-mod gen_ {
+//! Engine E2: Hydro through the production embedded code generator (C30, C35, C41).
+#[macro_use]
+mod macros;
+include!(concat!(env!("OUT_DIR"), "/have.rs"));
+
+pub mod drive;
+pub mod refsem;
+pub mod c30;
+pub mod c35;
+pub mod c41;
+pub mod twoloc;
+
+#[allow(unused_imports, unused_qualifications, non_snake_case, unused, clippy::all)]
+pub mod gen_ {
     include!(concat!(env!("OUT_DIR"), "/mods.rs"));
 }
+
+pub enum Runner {
+    /// one input `a`
+    A1(fn(&[Vec<i32>]) -> Vec<Vec<i32>>),
+    /// two inputs `a`, `b`
+    A2(fn(&[(Vec<i32>, Vec<i32>)]) -> Vec<Vec<i32>>),
+}
+
+pub struct ProgInfo {
+    pub id: &'static str,
+    pub family: &'static str,
+    pub ops: &'static [&'static str],
+    pub run: Runner,
+}
+
+pub struct GenFailure {
+    pub id: &'static str,
+    pub family: &'static str,
+    pub desc: &'static str,
+    pub message: &'static str,
+}
+
+use c35::{E3, NetInfo, TNested, TOpt, TRes};
 include!(concat!(env!("OUT_DIR"), "/table.rs"));
 
-use std::cell::RefCell;
-use std::collections::VecDeque;
-use std::pin::Pin;
-use std::rc::Rc;
-use std::task::{Context, Poll};
+use vf_explore::{Report, Stats, Value, cli, ncpu, par_map, quiet_panics};
 
-pub struct Q<T>(Rc<RefCell<VecDeque<T>>>);
-impl<T> Clone for Q<T> { fn clone(&self) -> Self { Q(self.0.clone()) } }
-impl<T> Q<T> {
-    pub fn new() -> Self { Q(Rc::new(RefCell::new(VecDeque::new()))) }
-    pub fn push(&self, t: T) { self.0.borrow_mut().push_back(t) }
-}
-impl<T> futures::Stream for Q<T> {
-    type Item = T;
-    fn poll_next(self: Pin<&mut Self>, _cx: &mut Context<'_>) -> Poll<Option<T>> {
-        match self.0.borrow_mut().pop_front() { Some(x) => Poll::Ready(Some(x)), None => Poll::Pending }
+fn run_c35(rep: &mut Report) {
+    let thorough = rep.thorough();
+    rep.rule = "case = (network flow = shape x payload type, cluster member-id set, sender, sequence of 1 or 2 \
+        (addressee, value) messages): ALL values of the per-type boundary alphabet, ALL ordered pairs, ALL \
+        (sender, addressee) pairs; every case differs in flow or message content".into();
+    rep.explanation = "flows are compiled by the production generate_embedded; the harness is the transport: it \
+        moves what the generated network-out closure emitted (bytes + addressee TaglessMemberId) to the generated \
+        network-in stream of the member with that id, tagging with the sender id; oracle: each receiver's output \
+        callback got exactly the sent values (compared as a multiset per receiver), nothing at non-addressed members, \
+        tag == sender id; MemberId <-> TaglessMemberId round trip over raw ids; sinktools::demux_map routes by key".into();
+    rep.assume("values outside the boundary alphabet are not covered (bounded input enumeration)");
+    rep.assume("the harness plays the transport (delivers by the emitted addressee id, tags with the sender id)");
+    rep.assume("embedded deployment path (compile/embedded.rs); the deployed runtimes' socket layer is not exercised");
+    let ctx = c35::NetCtx::new(thorough);
+    rep.bound("member_id_sets", vf_explore::json!(ctx.member_sets));
+    rep.bound("flows", NETS.len());
+    rep.bound("raw_ids", vf_explore::json!(c35::RAW_IDS));
+    rep.bound("max_messages_per_case", 2);
+    let st = par_map(NETS.len(), ncpu().min(16), |i| {
+        let mut st = Stats::new();
+        let ctx = c35::NetCtx::new(thorough);
+        (NETS[i].run)(&ctx, &mut st);
+        st
+    });
+    rep.section("network_flows", st);
+    let mut st = Stats::new();
+    c35::member_ids(&mut st);
+    rep.section("member_id_round_trip", st);
+    let mut st = Stats::new();
+    c35::demux_map_routing(&mut st, thorough);
+    rep.section("demux_map_routing", st);
+    for f in GEN_FAILURES.iter().filter(|f| f.family == "net") {
+        let mut st = Stats::new();
+        st.cap(format!("flow {} was not generated (reported by C41): not checked", f.id));
+        rep.section(&format!("missing_{}", f.id), st);
     }
 }
-impl<T> Unpin for Q<T> {}
+
+fn replay_c35(case: &Value) -> bool {
+    let flow = case["flow"].as_str().unwrap();
+    let mut st = Stats::new();
+    match flow {
+        "member_id" | "member_id_pairs" => c35::member_ids(&mut st),
+        "demux_map" => c35::demux_map_routing(&mut st, true),
+        _ => {
+            let n = NETS.iter().find(|n| n.id == flow).expect("unknown flow");
+            let mut ctx = c35::NetCtx::new(true);
+            ctx.only = Some(case["case"].clone());
+            (n.run)(&ctx, &mut st);
+        }
+    }
+    println!("replayed {} case(s) of {flow}: {} violation(s)", st.evaluations, st.violations_total);
+    for v in &st.violations {
+        println!("  {}", v.what);
+    }
+    st.violations_total > 0
+}
 
 fn main() {
-    let q = Q::<i32>::new();
-    let col = RefCell::new(Vec::<i32>::new());
-    let mut outs = gen_::p0001::prog::EmbeddedOutputs { out: |x: i32| col.borrow_mut().push(x) };
-    let mut df = gen_::p0001::prog(q.clone(), &mut outs);
-    for b in [vec![2, 1], vec![], vec![0, 0, 1]] {
-        for x in b { q.push(x); }
-        df.run_tick_sync();
-        println!("{:?}", col.take());
+    let cli = cli();
+    quiet_panics();
+    if let Some(f) = &cli.replay {
+        let txt = std::fs::read_to_string(f).expect("cannot read replay file");
+        let v: Value = vf_explore::serde_json::from_str(&txt).expect("replay file is not JSON");
+        let case = &v["case"];
+        let still = match cli.property.as_str() {
+            "C30" => c30::replay(case),
+            "C35" => replay_c35(case),
+            "C41" => c41::replay(case),
+            p => {
+                eprintln!("unknown property {p}");
+                std::process::exit(2)
+            }
+        };
+        std::process::exit(if still { 1 } else { 0 });
     }
-    println!("{:?}", T);
+    let mut rep = Report::new(&cli.property, &cli.tier, "vf_hydro_emb2");
+    match cli.property.as_str() {
+        "C30" => c30::run(&mut rep),
+        "C35" => run_c35(&mut rep),
+        "C41" => c41::run(&mut rep),
+        p => {
+            eprintln!("vf_hydro_emb2 does not serve property {p}");
+            std::process::exit(2)
+        }
+    }
+    rep.finish();
 }
